@@ -4,7 +4,7 @@ the outcome in seeded/<id>/meta.json.   usage: tools/seedbatch.py [id ...]"""
 import json, subprocess, sys, re
 from pathlib import Path
 V = Path("/verif")
-REL = {"C12-2": ["C12", "C14"], "C20-1": ["C20", "C19", "C09"], "C09-2": ["C09", "C02"], "C01-1": ["C01", "C18"], "C01-2": ["C01", "C14"], "C02-1": ["C02", "C09"], "C02-2": ["C02", "C09"],
+REL = {"C19-5": ["C19", "C14"], "C12-2": ["C12", "C14"], "C20-1": ["C20", "C19", "C09"], "C09-2": ["C09", "C02"], "C01-1": ["C01", "C18"], "C01-2": ["C01", "C14"], "C02-1": ["C02", "C09"], "C02-2": ["C02", "C09"],
        "C03-1": ["C03", "C14"], "C04-2": ["C04", "C16"], "C10-1": ["C10", "C11"], "C20-2": ["C20", "C10"], "C10-2": ["C10"],
        "C11-1": ["C11", "C10"], "C11-2": ["C11", "C10"], "C14-2": ["C14", "C03"], "C15-2": ["C15", "C16"],
        "C16-1": ["C16"], "C16-2": ["C16", "C05"], "C17-2": ["C17", "C16"], "C18-1": ["C18", "C09"], "C18-2": ["C18", "C01"]}
